@@ -169,7 +169,7 @@ def same_text(net, o, text, entry):
     return None
 
 
-def oracle(op: str, out: str):
+def _oracle(op: str, out: str):
     a = op.split(" ")
     if out.startswith("err"):
         return "exception escapes the parser: %s" % out[4:]
@@ -241,7 +241,7 @@ def model_safe(s: str) -> bool:
     return True
 
 
-def gen(ctx, emit):
+def _gen(ctx, emit):
     rng = ctx.rng
 
     def rb(n):
@@ -423,3 +423,25 @@ def _has_point(x):
         return True
     except ValueError:
         return False
+
+
+def oracle(op: str, out: str):
+    """the property evaluated on the implementation; on the unchanged tree no step of it raises"""
+    try:
+        return _oracle(op, out)
+    except ImportError:
+        return None   # Groestl hash library absent
+    except Exception as e:  # noqa: BLE001
+        return "evaluating the property on the implementation raised %s" % type(e).__name__
+
+
+def gen(ctx, emit):
+    import traceback
+    try:
+        _gen(ctx, emit)
+    except Exception as e:  # noqa: BLE001
+        tb = traceback.extract_tb(e.__traceback__)
+        where = next((fr for fr in reversed(tb) if "/pycoin/" in fr.filename), tb[-1])
+        ctx.violation("building the inputs through the public API raised %s" % type(e).__name__,
+                      "<generator> %s:%d %s" % (where.filename.split("/pycoin/")[-1], where.lineno, where.name),
+                      expected="the API calls the generators use succeed", observed=repr(e)[:200], kind="oracle")
